@@ -26,6 +26,7 @@ import (
 	"math"
 	"math/rand"
 	"os"
+	"os/exec"
 	"path/filepath"
 	"regexp"
 	"runtime"
@@ -237,6 +238,70 @@ func vpsIDs(ps []int) []peer.ID {
 	return out
 }
 
+// vpsCall is the real call for a logged operation.
+func vpsCall(ps *PeerSet, e *vpsEvent) func() error {
+	switch e.Op {
+	case "AddPeer":
+		return func() error { return ps.addPeer(0, vpsIDs(e.Ps)) }
+	case "RemovePeer":
+		return func() error { return ps.removePeer(0, vpsIDs(e.Ps)...) }
+	case "AddReserved":
+		return func() error { return ps.addReservedPeers(0, vpsIDs(e.Ps)...) }
+	case "RemoveReserved":
+		return func() error { return ps.removeReservedPeers(0, vpsIDs(e.Ps)...) }
+	case "SetReserved":
+		return func() error { return ps.setReservedPeer(0, vpsIDs(e.Ps)...) }
+	case "Report":
+		return func() error {
+			return ps.reportPeer(ReputationChange{Value: Reputation(e.D), Reason: "verif"}, vpsIDs(e.Ps)...)
+		}
+	case "Incoming":
+		return func() error { return ps.incoming(0, vpsIDs(e.Ps)...) }
+	case "Disconnect":
+		return func() error { return ps.disconnect(0, UnknownDrop, vpsIDs(e.Ps)...) }
+	case "Tick":
+		return func() error {
+			ps.latestTimeUpdate = time.Now().Add(-time.Duration(e.D)*time.Second - time.Millisecond)
+			return ps.updateTime()
+		}
+	case "Alloc":
+		return func() error { return ps.allocSlots(0) }
+	}
+	return nil
+}
+
+func vpsNewSet(t *testing.T, cfg vpsCfg, h int) (*PeerSet, vpsEvent) {
+	ps, err := newPeerSet(NewConfigSet(uint32(cfg.MaxIn), uint32(cfg.MaxOut), cfg.Ro, time.Hour))
+	if err != nil {
+		t.Fatalf("VERIF-INFRA newPeerSet: %v", err)
+	}
+	ps.resultMsgCh = make(chan Message, 1<<14)
+	ev := vpsEvent{Ev: "reset", H: h, Op: "Reset", Ps: []int{}, Msgs: []vpsMsg{}, Cfg: cfg}
+	vpsProject(ps, &ev)
+	return ps, ev
+}
+
+// vpsExec performs the call of e on the real peer set with time pinned and fills in the observation.
+// stalled = the process was stalled so long that a second may have passed inside the call: nothing is
+// concluded from the history any more.
+func vpsExec(ps *PeerSet, e *vpsEvent, prev *vpsEvent) (stalled bool) {
+	call := vpsCall(ps, e)
+	t0 := time.Now()
+	ps.latestTimeUpdate = t0
+	pm, em, hang := vpsGuard(call)
+	if !hang && time.Since(t0) > 400*time.Millisecond {
+		return true
+	}
+	e.Panic, e.Err, e.Hang = pm, em, hang
+	if hang {
+		e.St, e.Rep, e.Res, e.NoSlot, e.Mem, e.Nin, e.Nout = prev.St, prev.Rep, prev.Res, prev.NoSlot, prev.Mem, prev.Nin, prev.Nout
+	} else {
+		e.Msgs = vpsDrain(ps)
+		vpsProject(ps, e)
+	}
+	return false
+}
+
 func TestVerifPeerSetRecord(t *testing.T) {
 	res := vNewResult("C30")
 	defer res.Write(t)
@@ -265,13 +330,7 @@ func TestVerifPeerSetRecord(t *testing.T) {
 	for h := 0; h < nhist; h++ {
 		cfg := vpsCfg{MaxIn: rng.Intn(4), MaxOut: rng.Intn(4), Ro: rng.Intn(4) == 0, Thr: thr, Pen: int64(disconnectReputationChange),
 			Min: math.MinInt32, Max: math.MaxInt32, N: vpsN}
-		ps, err := newPeerSet(NewConfigSet(uint32(cfg.MaxIn), uint32(cfg.MaxOut), cfg.Ro, time.Hour))
-		if err != nil {
-			t.Fatalf("VERIF-INFRA newPeerSet: %v", err)
-		}
-		ps.resultMsgCh = make(chan Message, 1<<14)
-		ev := vpsEvent{Ev: "reset", H: h, Op: "Reset", Ps: []int{}, Msgs: []vpsMsg{}, Cfg: cfg}
-		vpsProject(ps, &ev)
+		ps, ev := vpsNewSet(t, cfg, h)
 		enc.Encode(ev)
 		lines++
 		prev := ev
@@ -286,23 +345,17 @@ func TestVerifPeerSetRecord(t *testing.T) {
 			connected := func(p int) bool { return prev.St[p-1] == "in" || prev.St[p-1] == "out" }
 			inMap := func(p int) bool { return prev.Mem[p-1] }
 			reserved := func(p int) bool { return prev.Res[p-1] }
-			var call func() error
 			switch r := rng.Intn(100); {
 			case r < 14:
 				e.Op, e.Ps = "AddPeer", vpsPick(rng, nl, nil)
-				call = func() error { return ps.addPeer(0, vpsIDs(e.Ps)) }
 			case r < 22:
 				e.Op, e.Ps = "RemovePeer", vpsPick(rng, nl, inMap)
-				call = func() error { return ps.removePeer(0, vpsIDs(e.Ps)...) }
 			case r < 32:
 				e.Op, e.Ps = "AddReserved", vpsPick(rng, nl, nil)
-				call = func() error { return ps.addReservedPeers(0, vpsIDs(e.Ps)...) }
 			case r < 40:
 				e.Op, e.Ps = "RemoveReserved", vpsPick(rng, nl, reserved)
-				call = func() error { return ps.removeReservedPeers(0, vpsIDs(e.Ps)...) }
 			case r < 44:
 				e.Op, e.Ps = "SetReserved", vpsPick(rng, rng.Intn(4), nil)
-				call = func() error { return ps.setReservedPeer(0, vpsIDs(e.Ps)...) }
 			case r < 64:
 				// a report for a peer without a node is kept rare: on the pinned tree it never returns
 				e.Op, e.D = "Report", deltas[rng.Intn(len(deltas))]
@@ -316,47 +369,26 @@ func TestVerifPeerSetRecord(t *testing.T) {
 					}
 					if len(e.Ps) == 0 {
 						e.Op, e.D, e.Ps = "AddPeer", 0, vpsPick(rng, nl, nil)
-						call = func() error { return ps.addPeer(0, vpsIDs(e.Ps)) }
 						break
 					}
 				}
-				call = func() error {
-					return ps.reportPeer(ReputationChange{Value: Reputation(e.D), Reason: "verif"}, vpsIDs(e.Ps)...)
-				}
 			case r < 78:
 				e.Op, e.Ps = "Incoming", vpsPick(rng, nl, func(p int) bool { return !connected(p) })
-				call = func() error { return ps.incoming(0, vpsIDs(e.Ps)...) }
 			case r < 88:
 				e.Op, e.Ps = "Disconnect", vpsPick(rng, nl, connected)
-				call = func() error { return ps.disconnect(0, UnknownDrop, vpsIDs(e.Ps)...) }
 			case r < 95:
 				ks := []int64{1, 1, 2, 3, 10, 60, 700}
 				e.Op, e.D = "Tick", ks[rng.Intn(len(ks))]
-				call = func() error {
-					ps.latestTimeUpdate = time.Now().Add(-time.Duration(e.D)*time.Second - time.Millisecond)
-					return ps.updateTime()
-				}
 			default:
 				e.Op = "Alloc"
-				call = func() error { return ps.allocSlots(0) }
 			}
-			t0 := time.Now()
-			ps.latestTimeUpdate = t0
-			pm, em, hang := vpsGuard(call)
-			el := time.Since(t0)
-			if !hang && el > 400*time.Millisecond {
-				// the process was stalled: a second may have passed inside the call; nothing is
-				// concluded from this history any more
+			if vpsExec(ps, &e, &prev) {
 				stalls++
 				break
 			}
-			e.Panic, e.Err, e.Hang = pm, em, hang
+			hang, pm := e.Hang, e.Panic
 			if hang {
 				hangs++
-				e.St, e.Rep, e.Res, e.NoSlot, e.Mem, e.Nin, e.Nout = prev.St, prev.Rep, prev.Res, prev.NoSlot, prev.Mem, prev.Nin, prev.Nout
-			} else {
-				e.Msgs = vpsDrain(ps)
-				vpsProject(ps, &e)
 			}
 			enc.Encode(e)
 			lines++
@@ -399,19 +431,112 @@ func TestVerifPeerSetVerdict(t *testing.T) {
 		}
 	}
 	if tlcOut == "" {
-		t.Fatalf("VERIF-INFRA no TLC trace-validation output with a VERIF-SUMMARY line in %s (this stage follows the tlc_trace stage; a --replay of its findings is not supported: see trace_prefix in the replay file)", in)
+		// bin/check --replay: the input is the history of a reported disagreement
+		if lines, out, last, ok := vpsReplay(t, in); ok {
+			vpsJudge(t, res, out, lines, last)
+			return
+		}
+		t.Fatalf("VERIF-INFRA no TLC trace-validation output with a VERIF-SUMMARY line in %s (this stage follows the tlc_trace stage)", in)
 	}
-	tf, err := os.Open(filepath.Join(in, "trace.ndjson"))
+	lines := vpsReadLines(t, filepath.Join(in, "trace.ndjson"))
+	vpsJudge(t, res, tlcOut, lines, -1)
+}
+
+func vpsReadLines(t *testing.T, path string) []string {
+	tf, err := os.Open(path)
 	if err != nil {
 		t.Fatalf("VERIF-INFRA %v", err)
 	}
 	defer tf.Close()
 	var lines []string
 	sc := bufio.NewScanner(tf)
-	sc.Buffer(make([]byte, 1<<20), 1<<26)
+	sc.Buffer(make([]byte, 1<<20), 1<<28)
 	for sc.Scan() {
 		lines = append(lines, sc.Text())
 	}
+	return lines
+}
+
+// vpsReplay re-executes the operations of a reported history on the real peer set (20 times: the
+// outcome of a call may depend on Go's map iteration order) and has TLC validate the new recordings
+// with specs/PeerSet_Trace.tla.  The location of /verif is taken from the overlay file of this stage.
+func vpsReplay(t *testing.T, in string) (lines []string, tlcOut string, lastStep int, ok bool) {
+	raw, err := os.ReadFile(filepath.Join(in, "trace.ndjson"))
+	if err != nil || !strings.HasPrefix(strings.TrimSpace(string(raw)), "[") {
+		return nil, "", 0, false
+	}
+	var hist []vpsEvent
+	if err := json.Unmarshal(raw, &hist); err != nil || len(hist) < 2 {
+		t.Fatalf("VERIF-INFRA replay input: %v", err)
+	}
+	logger.Patch(log.SetWriter(io.Discard))
+	root := ""
+	ovs, _ := filepath.Glob(filepath.Join(os.Getenv("VERIF_OUT"), "overlay_*.json"))
+	for _, o := range ovs {
+		b, _ := os.ReadFile(o)
+		var ov struct{ Replace map[string]string }
+		if json.Unmarshal(b, &ov) == nil {
+			for _, src := range ov.Replace {
+				if i := strings.Index(src, "/harness/dot/peerset/"); i > 0 {
+					root = src[:i]
+				}
+			}
+		}
+	}
+	if root == "" {
+		t.Fatalf("VERIF-INFRA replay: cannot locate the verification tree from the overlay files")
+	}
+	dir, err := os.MkdirTemp(os.Getenv("VERIF_OUT"), "replay-")
+	if err != nil {
+		t.Fatalf("VERIF-INFRA %v", err)
+	}
+	for _, pat := range []string{"specs/PeerSet_Trace.tla", "specs/PeerSet_Trace.cfg", "specs/lib/PeerSetOps.tla"} {
+		b, err := os.ReadFile(filepath.Join(root, pat))
+		if err != nil {
+			t.Fatalf("VERIF-INFRA replay: %v", err)
+		}
+		os.WriteFile(filepath.Join(dir, filepath.Base(pat)), b, 0o644)
+	}
+	var sb strings.Builder
+	for a := 0; a < 20; a++ {
+		ps, ev := vpsNewSet(t, hist[0].Cfg, a)
+		b, _ := json.Marshal(ev)
+		lines = append(lines, string(b))
+		prev := ev
+		for i, src := range hist[1:] {
+			e := vpsEvent{Ev: "op", H: a, I: i + 1, Op: src.Op, Ps: src.Ps, D: src.D, Msgs: []vpsMsg{}, Cfg: hist[0].Cfg}
+			if e.Ps == nil {
+				e.Ps = []int{}
+			}
+			if vpsExec(ps, &e, &prev) {
+				break
+			}
+			b, _ := json.Marshal(e)
+			lines = append(lines, string(b))
+			if e.Hang || e.Panic != "" {
+				break
+			}
+			prev = e
+		}
+	}
+	for _, l := range lines {
+		sb.WriteString(l + "\n")
+	}
+	os.WriteFile(filepath.Join(dir, "trace.ndjson"), []byte(sb.String()), 0o644)
+	jar := vEnvStr("VERIF_TLA_JAR", "/opt/veriftools/tla/tla2tools.jar:/opt/veriftools/tla/CommunityModules-deps.jar")
+	cmd := exec.Command("java", "-XX:+UseParallelGC", "-Xss64m", "-cp", jar, "tlc2.TLC", "-workers", "1",
+		"-metadir", filepath.Join(dir, "md"), "-config", "PeerSet_Trace.cfg", "PeerSet_Trace")
+	cmd.Dir = dir
+	outb, err := cmd.CombinedOutput()
+	if !strings.Contains(string(outb), `"VERIF-SUMMARY"`) {
+		t.Fatalf("VERIF-INFRA replay: TLC gave no verdict (%v): %s", err, string(outb[max(0, len(outb)-1500):]))
+	}
+	return lines, string(outb), len(hist) - 1, true
+}
+
+// onlyStep >= 0 (replay): only a rejection of that step of a history is the replayed disagreement; the
+// steps before it are the way there.
+func vpsJudge(t *testing.T, res *vResult, tlcOut string, lines []string, onlyStep int) {
 	nrej, consumed, total, seen := -1, -1, -1, 0
 	for _, ln := range strings.Split(tlcOut, "\n") {
 		ln = strings.TrimSpace(ln)
@@ -445,6 +570,9 @@ func TestVerifPeerSetVerdict(t *testing.T) {
 			}
 		}
 		sig := "C30/" + op + "/" + cls + "/" + why
+		if onlyStep >= 0 && step != onlyStep {
+			continue
+		}
 		if lno < 1 || lno > len(lines) {
 			t.Fatalf("VERIF-INFRA reject line %d outside the trace (%d lines)", lno, len(lines))
 		}
